@@ -556,4 +556,207 @@ Proof.
   eexists _, _. split; [reflexivity|]. split; [left; reflexivity|]. splits; auto.
   eapply ext_trans_same; [apply ext_nil_any; exact E01 | exact E2].
 Qed.
+
+(* ================= translated leaf classes of default_ops.py ================= *)
+Definition inst_leaf (dom ran : space) (pars : list VR) (vecs : list nat) : instR :=
+  {| i_dom := dom; i_ran := RSp ran; i_pars := pars; i_vecs := vecs; i_owns := []; i_kids := [] |}.
+
+(* ---------------- ScalingOperator / IdentityOperator ---------------- *)
+Lemma scaling_oop sp ro a :
+  raw_oop_vec (fun x => exec_body junk (inst_leaf sp sp [Some a] []) (c_oop cls_ScalingOperator) x None)
+    sp sp ro (fun d => rscal a d).
+Proof.
+  intros s x dx W G Ex. unfold cls_ScalingOperator, inst_leaf. interp.
+  rewrite (new_scaled_clean _ _ _ _ _ W Ex).
+  eexists _, _. split; [reflexivity|].
+  apply fresh_result; [apply ext_refl | exact W |]. rewrite rscal_length. eapply wf_len; eauto.
+Qed.
+Lemma scaling_ip sp ro a :
+  raw_ip_vec (fun x o => exec_body junk (inst_leaf sp sp [Some a] []) (c_ip cls_ScalingOperator) x (Some o))
+    sp sp ro (fun d => rscal a d).
+Proof.
+  intros s x y dx dy W G Ex Ey Nxy Ny. unfold cls_ScalingOperator, inst_leaf. interp.
+  rewrite (do_lincomb1_clean _ _ _ _ _ _ _ W Ex Ey).
+  eexists _, _. split; [reflexivity|]. split; [right; reflexivity|].
+  eapply ip_finish; [apply ext_refl | exact W | exact Ey |]. rewrite rscal_length. eapply wf_len; eauto.
+Qed.
+
+(* ---------------- ZeroOperator (domain == range) ---------------- *)
+Lemma of_Q_zero : @of_Q VR _ (0 # 1) = Some (0 / 1)%R.
+Proof.
+  unfold of_Q. cbn [Qnum Qden of_Z ndiv Num_opt odiv neqb nzero Num_R].
+  destruct (Reqb_spec 1 0) as [E|_]; [lra | reflexivity].
+Qed.
+Lemma zero_same_oop sp ro :
+  raw_oop_vec (fun x => exec_body junk (inst_leaf sp sp [] []) (c_oop cls_ZeroOperator_same) x None)
+    sp sp ro (fun d => rscal (0 / 1) d).
+Proof.
+  intros s x dx W G Ex. unfold cls_ZeroOperator_same, inst_leaf. interp. rewrite of_Q_zero.
+  rewrite (new_scaled_clean _ _ _ _ _ W Ex).
+  eexists _, _. split; [reflexivity|].
+  apply fresh_result; [apply ext_refl | exact W |]. rewrite rscal_length. eapply wf_len; eauto.
+Qed.
+Lemma zero_same_ip sp ro :
+  raw_ip_vec (fun x o => exec_body junk (inst_leaf sp sp [] []) (c_ip cls_ZeroOperator_same) x (Some o))
+    sp sp ro (fun d => rscal (0 / 1) d).
+Proof.
+  intros s x y dx dy W G Ex Ey Nxy Ny. unfold cls_ZeroOperator_same, inst_leaf. interp. rewrite of_Q_zero.
+  rewrite (do_lincomb1_clean _ _ _ _ _ _ _ W Ex Ey).
+  eexists _, _. split; [reflexivity|]. split; [right; reflexivity|].
+  eapply ip_finish; [apply ext_refl | exact W | exact Ey |]. rewrite rscal_length. eapply wf_len; eauto.
+Qed.
+
+(* ---------------- ZeroOperator (domain != range) ---------------- *)
+Lemma zero_diff_oop dom ran ro :
+  raw_oop_vec (fun x => exec_body junk (inst_leaf dom ran [] []) (c_oop cls_ZeroOperator_diff) x None)
+    dom ran ro (fun _ => repeat 0%R (fst ran)).
+Proof.
+  intros s x dx W G Ex. unfold cls_ZeroOperator_diff, inst_leaf. interp. cbn [alloc]. rewrite zeros_cl.
+  eexists _, _. split; [reflexivity|].
+  apply fresh_result; [apply ext_refl | exact W | apply repeat_length].
+Qed.
+Lemma zero_diff_ip dom ran ro :
+  raw_ip_vec (fun x o => exec_body junk (inst_leaf dom ran [] []) (c_ip cls_ZeroOperator_diff) x (Some o))
+    dom ran ro (fun _ => repeat 0%R (fst ran)).
+Proof.
+  intros s x y dx dy W G Ex Ey Nxy Ny. unfold cls_ZeroOperator_diff, inst_leaf. interp. cbn [alloc].
+  rewrite zeros_cl. set (t := length s). set (s1 := s ++ [(ran, cl (repeat 0%R (fst ran)))]).
+  assert (Ly : (y < t)%nat) by (eapply rd_lt; exact Ey).
+  assert (W1 : wf_store s1) by (apply wf_alloc; [exact W | rewrite cl_length; apply repeat_length]).
+  assert (Ey1 : rd s1 y = Some (ran, dy)) by (unfold s1; rewrite rd_app_old; assumption).
+  pose proof (do_assign_clean y t s1 ran _ dy W1 (rd_app_new _ _) Ey1) as Ha.
+  match goal with
+  | |- context [do_assign y ?t' ?s'] =>
+      replace (do_assign y t' s') with (Ok tt (upd s1 y (ran, cl (repeat 0%R (fst ran))))) by (symmetry; exact Ha)
+  end.
+  eexists _, _. split; [reflexivity|]. split; [right; reflexivity|].
+  eapply ip_finish; [apply ext_nil_any; apply ext_alloc | exact W1 | exact Ey1 | apply repeat_length].
+Qed.
+
+(* ---------------- ConstantOperator ---------------- *)
+Lemma do_copy_eq i (s : storeR) sp d : rd s i = Some (sp, d) -> do_copy i s = Ok (length s) (s ++ [(sp, d)]).
+Proof. intros E. unfold do_copy. rewrite E. reflexivity. Qed.
+Lemma constant_oop dom ran ro v dv :
+  In (v, ran, dv) ro ->
+  raw_oop_vec (fun x => exec_body junk (inst_leaf dom ran [] [v]) (c_oop cls_ConstantOperator) x None)
+    dom ran ro (fun _ => dv).
+Proof.
+  intros Iv s x dx W G Ex. unfold cls_ConstantOperator, inst_leaf. interp.
+  pose proof (G _ _ _ Iv) as Ev. rewrite (do_copy_eq _ _ _ _ Ev).
+  eexists _, _. split; [reflexivity|].
+  apply fresh_result; [apply ext_refl | exact W | eapply wf_len; eauto].
+Qed.
+Lemma constant_ip dom ran ro v dv :
+  In (v, ran, dv) ro ->
+  raw_ip_vec (fun x o => exec_body junk (inst_leaf dom ran [] [v]) (c_ip cls_ConstantOperator) x (Some o))
+    dom ran ro (fun _ => dv).
+Proof.
+  intros Iv s x y dx dy W G Ex Ey Nxy Ny. unfold cls_ConstantOperator, inst_leaf. interp.
+  pose proof (G _ _ _ Iv) as Ev.
+  rewrite (do_assign_clean _ _ _ _ _ _ W Ev Ey).
+  eexists _, _. split; [reflexivity|]. split; [left; reflexivity|].
+  eapply ip_finish; [apply ext_refl | exact W | exact Ey | eapply wf_len; eauto].
+Qed.
+
+(* ---------------- MultiplyOperator (element multiplicand, space to itself) ---------------- *)
+Lemma multiply_oop sp ro v dv :
+  In (v, sp, dv) ro ->
+  raw_oop_vec (fun x => exec_body junk (inst_leaf sp sp [] [v]) (c_oop cls_MultiplyOperator) x None)
+    sp sp ro (fun d => rmul dv d).
+Proof.
+  intros Iv s x dx W G Ex. unfold cls_MultiplyOperator, inst_leaf. interp.
+  pose proof (G _ _ _ Iv) as Ev.
+  rewrite (new_mul_clean _ _ _ _ _ _ Ex Ev).
+  eexists _, _. split; [reflexivity|].
+  apply fresh_result; [apply ext_refl | exact W |].
+  rewrite rmul_length; [eapply wf_len; eauto|].
+  rewrite (wf_len _ _ _ _ W Ex), (wf_len _ _ _ _ W Ev). reflexivity.
+Qed.
+Lemma multiply_ip sp ro v dv :
+  In (v, sp, dv) ro ->
+  raw_ip_vec (fun x o => exec_body junk (inst_leaf sp sp [] [v]) (c_ip cls_MultiplyOperator) x (Some o))
+    sp sp ro (fun d => rmul dv d).
+Proof.
+  intros Iv s x y dx dy W G Ex Ey Nxy Ny. unfold cls_MultiplyOperator, inst_leaf. interp.
+  pose proof (G _ _ _ Iv) as Ev.
+  rewrite (new_mul_clean _ _ _ _ _ _ Ev Ex). rewrite rmul_comm.
+  set (t := length s). set (s1 := s ++ [(sp, cl (rmul dv dx))]).
+  assert (Ly : (y < t)%nat) by (eapply rd_lt; exact Ey).
+  assert (Lm : length (rmul dv dx) = fst sp).
+  { rewrite rmul_length; [eapply wf_len; eauto|].
+    rewrite (wf_len _ _ _ _ W Ex), (wf_len _ _ _ _ W Ev). reflexivity. }
+  assert (W1 : wf_store s1) by (apply wf_alloc; [exact W | rewrite cl_length; exact Lm]).
+  assert (Ey1 : rd s1 y = Some (sp, dy)) by (unfold s1; rewrite rd_app_old; assumption).
+  pose proof (do_assign_clean y t s1 sp _ dy W1 (rd_app_new _ _) Ey1) as Ha.
+  match goal with
+  | |- context [do_assign y ?t' ?s'] =>
+      replace (do_assign y t' s') with (Ok tt (upd s1 y (sp, cl (rmul dv dx)))) by (symmetry; exact Ha)
+  end.
+  eexists _, _. split; [reflexivity|]. split; [left; reflexivity|].
+  eapply ip_finish; [apply ext_nil_any; apply ext_alloc | exact W1 | exact Ey1 | exact Lm].
+Qed.
+
+(* ================= primitive leaves ================= *)
+(* a leaf whose NumPy kernel maps clean data to clean data as F *)
+Definition pf_clean (f : @pfun VR) (dom ran : space) (F : list R -> list R) : Prop :=
+  pf_scalar f = (fun _ => None) /\
+  forall d, length d = fst dom -> pf_vec f (cl d) = cl (F d) /\ length (F d) = fst ran.
+
+Lemma data_of_eq (s : storeR) i sp d : rd s i = Some (sp, d) -> data_of i s = Ok d s.
+Proof. intros E. unfold data_of. rewrite E. reflexivity. Qed.
+Lemma set_data_eq (s : storeR) i sp d d' : rd s i = Some (sp, d) -> set_data i d' s = Ok tt (upd s i (sp, d')).
+Proof. intros E. unfold set_data. rewrite E. reflexivity. Qed.
+
+Lemma leaf_oop k f dom ran ro F :
+  pf_clean f dom ran F ->
+  raw_oop_vec (leaf_raw_oop {| lf_kind := k; lf_fun := f; lf_alias := false; lf_quirk := QNone |}) dom ran ro F.
+Proof.
+  intros (Hs & Hf) s x dx W G Ex. unfold leaf_raw_oop. cbn [lf_quirk lf_fun lf_alias elem_id].
+  rewrite (bind_Ok _ _ _ _ _ (eq_refl : ret x s = Ok x s)).
+  rewrite (bind_Ok _ _ _ _ _ (data_of_eq _ _ _ _ Ex)).
+  rewrite (bind_Ok _ _ _ _ _ (eq_refl : ret tt s = Ok tt s)).
+  rewrite Hs. destruct (Hf dx (wf_len _ _ _ _ W Ex)) as (Hv & Hl). rewrite Hv.
+  eexists _, _. split; [reflexivity|]. splits; [apply ext_refl | exact W |]. right. split; [reflexivity | exact Hl].
+Qed.
+Lemma leaf_alias_oop k f sp ro :
+  pf_scalar f = (fun _ => None) ->
+  raw_oop_vec (leaf_raw_oop {| lf_kind := k; lf_fun := f; lf_alias := true; lf_quirk := QNone |}) sp sp ro (fun d => d).
+Proof.
+  intros Hs s x dx W G Ex. unfold leaf_raw_oop. cbn [lf_quirk lf_fun lf_alias elem_id].
+  rewrite (bind_Ok _ _ _ _ _ (eq_refl : ret x s = Ok x s)).
+  rewrite (bind_Ok _ _ _ _ _ (data_of_eq _ _ _ _ Ex)).
+  rewrite (bind_Ok _ _ _ _ _ (eq_refl : ret tt s = Ok tt s)).
+  rewrite Hs.
+  eexists _, _. split; [reflexivity|]. splits; [apply ext_refl | exact W |].
+  left. exists x. splits; auto.
+Qed.
+(* functional leaves *)
+Definition pf_sc_clean (f : @pfun VR) (dom : space) (g : list R -> R) : Prop :=
+  forall d, length d = fst dom -> pf_scalar f (cl d) = Some (Some (g d)).
+Lemma leaf_sc k f al dom ro g :
+  pf_sc_clean f dom g ->
+  raw_oop_sc (leaf_raw_oop {| lf_kind := k; lf_fun := f; lf_alias := al; lf_quirk := QNone |}) dom ro g.
+Proof.
+  intros Hf s x dx W G Ex. unfold leaf_raw_oop. cbn [lf_quirk lf_fun lf_alias elem_id].
+  rewrite (bind_Ok _ _ _ _ _ (eq_refl : ret x s = Ok x s)).
+  rewrite (bind_Ok _ _ _ _ _ (data_of_eq _ _ _ _ Ex)).
+  rewrite (bind_Ok _ _ _ _ _ (eq_refl : ret tt s = Ok tt s)).
+  rewrite (Hf dx (wf_len _ _ _ _ W Ex)).
+  exists s. splits; [reflexivity | apply ext_refl | exact W].
+Qed.
+Lemma leaf_ip k f al dom ran ro F :
+  pf_clean f dom ran F ->
+  raw_ip_vec (leaf_raw_ip {| lf_kind := k; lf_fun := f; lf_alias := al; lf_quirk := QNone |}) dom ran ro F.
+Proof.
+  intros (Hs & Hf) s x y dx dy W G Ex Ey Nxy Ny. unfold leaf_raw_ip. cbn [lf_quirk lf_fun lf_alias elem_id].
+  rewrite (bind_Ok _ _ _ _ _ (eq_refl : ret x s = Ok x s)).
+  rewrite (bind_Ok _ _ _ _ _ (eq_refl : ret y s = Ok y s)).
+  rewrite (bind_Ok _ _ _ _ _ (data_of_eq _ _ _ _ Ex)).
+  rewrite (bind_Ok _ _ _ _ _ (data_of_eq _ _ _ _ Ey)).
+  destruct (Hf dx (wf_len _ _ _ _ W Ex)) as (Hv & Hl). rewrite Hv.
+  rewrite (bind_Ok _ _ _ _ _ (set_data_eq _ _ _ _ _ Ey)).
+  rewrite (bind_Ok _ _ _ _ _ (eq_refl : ret tt _ = Ok tt _)).
+  eexists _, _. split; [reflexivity|]. split; [left; reflexivity|].
+  eapply ip_finish; [apply ext_refl | exact W | exact Ey | exact Hl].
+Qed.
 End Classes.
